@@ -67,6 +67,13 @@ func (c *Ctx) EvBytes(kind string, p []byte) {
 	c.Ev(kind, int64(len(p)), 0, 0)
 }
 
+// Muted returns a scratch context whose events and counters are discarded: for
+// auxiliary re-executions (e.g. re-measuring an allocation) that must not
+// perturb the run's event log. It has no tape; code using it must not draw.
+func (c *Ctx) Muted() *Ctx {
+	return &Ctx{Thorough: c.Thorough, Run: c.Run, Seed: c.Seed, st: newStats(), h: 1}
+}
+
 // Note adds a human-readable line to the trace (replay only).
 func (c *Ctx) Note(format string, args ...interface{}) {
 	if c.tracing && len(c.trace) < 4000 {
@@ -160,6 +167,8 @@ type Scenario struct {
 	Extra func(thorough bool, counts map[string]int64) map[string]interface{}
 	// Setup runs once per process before any run (e.g. install hooks).
 	Setup func() error
+	// MaxWorkers caps the worker pool (1 for scenarios that use process-global hooks).
+	MaxWorkers int
 }
 
 // Execute performs one run on a tape. Harness panics propagate (exit 2);
